@@ -32,6 +32,10 @@ pub struct Case {
     /// probe 2's first fragment carries an extension chain that must come back with the PDU
     #[serde(default)]
     pub probe2_ext: bool,
+    /// probe 2's first fragment carries a re-use label referring to probe 1's label (when that is a
+    /// 3- or 6-byte label): still a valid fragmented PDU, to be delivered with probe 1's label
+    #[serde(default)]
+    pub probe2_reuse: bool,
 }
 
 fn strategy(t: Tier) -> BoxedStrategy<Case> {
@@ -44,16 +48,16 @@ fn strategy(t: Tier) -> BoxedStrategy<Case> {
     ];
     bx((
         prop_oneof![5 => 1u8..=4, 1 => Just(0u8)],
-        prop_oneof![1 => 1u16..8, 3 => 8u16..200],
+        prop_oneof![2 => 1u16..8, 6 => 8u16..200, 1 => 4000u16..9000],
         prop::collection::vec(pre, 0..t.pick(30, 40)),
         lab_addr_or_bcast(),
         any::<u16>(),
         lab_addr_or_bcast(),
         frag_id_any(),
         any::<u16>(),
-        (prop::collection::vec(1u16..100, 1..4), any::<bool>()),
+        (prop::collection::vec(1u16..100, 1..4), any::<bool>(), prop_oneof![3 => Just(false), 1 => Just(true)]),
     )
-        .prop_map(|(slots, pdu_size, prefix, probe1_lab, probe1_len, probe2_lab, probe2_id, probe2_len, (probe2_cuts, probe2_ext))| Case { slots, pdu_size, prefix, probe1_lab, probe1_len, probe2_lab, probe2_id, probe2_len, probe2_cuts, probe2_ext }))
+        .prop_map(|(slots, pdu_size, prefix, probe1_lab, probe1_len, probe2_lab, probe2_id, probe2_len, (probe2_cuts, probe2_ext, probe2_reuse))| Case { slots, pdu_size, prefix, probe1_lab, probe1_len, probe2_lab, probe2_id, probe2_len, probe2_cuts, probe2_ext, probe2_reuse }))
 }
 
 fn check(c: &Case, st: &mut Stats) -> Result<(), String> {
@@ -119,7 +123,8 @@ fn check(c: &Case, st: &mut Stats) -> Result<(), String> {
     };
     st.class_if(full1, "free-list-full-at-recovery");
     // probe 1: complete packet, PDU no larger than the configured storage size
-    let l1 = (c.probe1_len as usize) % (ps + 1);
+    // a complete packet holds at most 4095 - 2 - label bytes
+    let l1 = ((c.probe1_len as usize) % (ps + 1)).min(4000);
     let pdu1 = pdu_bytes(l1, 0xAAAA);
     let pkt1 = ref_complete(c.probe1_lab, 0x86DD, &pdu1, &[], false);
     match call_decap(&mut d, &pkt1) {
@@ -137,13 +142,17 @@ fn check(c: &Case, st: &mut Stats) -> Result<(), String> {
     let exts2: Vec<ExtSpec> = if c.probe2_ext { vec![ExtSpec { id: 0x0203, data: vec![0xE1, 0xE2] }, ExtSpec { id: 0x0003, data: vec![7, 8] }] } else { vec![] };
     let want_exts: Vec<(u16, Vec<u8>)> = exts2.iter().map(|e| (e.id, e.data.clone())).collect();
     st.class_if(c.probe2_ext, "probe2-with-extensions");
-    let train = ref_train_ext(c.probe2_lab, 0x0800, c.probe2_id, &pdu2, &cuts, &exts2);
+    let reuse2 = c.probe2_reuse && c.probe1_lab.is_addr();
+    st.class_if(reuse2, "probe2-re-uses-probe1-label");
+    st.class_if(l2 > 4095, "probe2-longer-than-4095");
+    let (wire_lab2, want_lab2) = if reuse2 { (Lab::ReUse, c.probe1_lab) } else { (c.probe2_lab, c.probe2_lab) };
+    let train = ref_train_ext(wire_lab2, 0x0800, c.probe2_id, &pdu2, &cuts, &exts2);
     for (i, p) in train.iter().enumerate() {
         let r = call_decap(&mut d, p);
         let last = i + 1 == train.len();
         match &r {
             Ok(Ok((DecapStatus::FragmentedPkt(_), n))) if !last && *n == p.len() => {}
-            Ok(Ok((DecapStatus::CompletedPkt(b, md), n))) if last && *n == p.len() && md.pdu_len() == l2 && b[..l2] == pdu2[..] && md.protocol_type() == 0x0800 && Lab::of(&md.label()) == c.probe2_lab && md.extensions().iter().map(super::c13::ext_bytes).collect::<Vec<_>>() == want_exts => {}
+            Ok(Ok((DecapStatus::CompletedPkt(b, md), n))) if last && *n == p.len() && md.pdu_len() == l2 && b[..l2] == pdu2[..] && md.protocol_type() == 0x0800 && Lab::of(&md.label()) == want_lab2 && md.extensions().iter().map(super::c13::ext_bytes).collect::<Vec<_>>() == want_exts => {}
             o => return st.violation("probe2-not-delivered", format!("slots={} pdu_size={} prefix={:?}: valid train on frag id {} ({} packets): packet {} {} -> {}", c.slots, c.pdu_size, c.prefix, c.probe2_id, train.len(), i, hex(p), show_dec(o))),
         }
     }
@@ -220,6 +229,7 @@ fn enum_case(t: Tier, i: u64) -> Case {
         probe2_len: 17,
         probe2_cuts: vec![4, 6],
         probe2_ext: probe >= 3,
+        probe2_reuse: false,
     }
 }
 
@@ -247,7 +257,7 @@ pub fn property() -> Property {
             fuzz_decode: Some(crate::fuzzdec::c16_case),
             strategy,
             check,
-            required_classes: &["prefix-leaves-open-context", "prefix-ends-with-empty-free-list", "prefix-ends-with-error", "probe2-with-extensions"],
+            required_classes: &["prefix-leaves-open-context", "prefix-ends-with-empty-free-list", "prefix-ends-with-error", "probe2-with-extensions", "probe2-re-uses-probe1-label", "probe2-longer-than-4095", "256-slots"],
         })],
     }
 }
